@@ -181,14 +181,14 @@ package mast
 //@ ensures closure [T3] (=> (AllOK H0) (AllOK H))
 
 //@ func (*mastNode).xcopy
-//@ tags C01 C02 C11
+//@ tags C01 C02 C11 C13
 //@ ensures dp [C02 C11 C13] (=> (DirtyPrivate H0) (DirtyPrivate H))
 //@ modifies W Arr.Any@fresh Node.*@fresh mastNode.*@fresh
 //@ requires nonnil (> node 0)
 //@ ensures fresh [C02] (and (> result W0) (<= result W) (FreshArrays H result W0))
 //@ ensures seqs [C02] (SameSeqs H result H0 node)
 //@ ensures caps (and (= (sl.cap (Node.Key H result)) (sl.cap (Node.Key H0 node))) (= (sl.cap (Node.Value H result)) (sl.cap (Node.Value H0 node))) (= (sl.cap (Node.Link H result)) (sl.cap (Node.Link H0 node))))
-//@ ensures flags [C02] (and (= (mastNode.dirty H result) (mastNode.dirty H0 node)) (= (mastNode.shared H result) (mastNode.shared H0 node)) (= (mastNode.expected H result) 0) (= (mastNode.source H result) 0))
+//@ ensures flags [C02 C13] (and (= (mastNode.dirty H result) (mastNode.dirty H0 node)) (= (mastNode.shared H result) (mastNode.shared H0 node)) (= (mastNode.expected H result) 0) (= (mastNode.source H result) 0))
 
 // ---------------------------------------------------------------------------------------
 // Copy-on-write guards (automatic obligations at every store into a node, C02 / C11).
@@ -1013,20 +1013,32 @@ package mast
 //@ ensures samelink [C15] (=> (and (> (stackLen H0 (oStack dc)) 0) (> (stackLen H0 (nStack dc)) 0) (not (isYield (topOf H0 (oStack dc)))) (= (S_iterItem.considerLink (topOf H0 (oStack dc))) (S_iterItem.considerLink (topOf H0 (nStack dc))))) (and (= err anil) (= (G.loads H) (G.loads H0)) (= (stackLen H (oStack dc)) (- (stackLen H0 (oStack dc)) 1)) (= (stackLen H (nStack dc)) (- (stackLen H0 (nStack dc)) 1)) (isNil (diffState.addedLink H dc)) (isNil (diffState.removedLink H dc)) (isNil (diffState.curKey H dc))))
 //@ ensures cfg (DiffCfg H m dc)
 
+// ghost flags: a callback has failed / has asked to stop (the callbacks are the caller's; all the
+// diff may do with their results is hand the failure on and stop when asked)
+//@ ghost G.cbFailed Bool
+//@ ghost G.cbStopped Bool
 //@ abstract param:(*Mast).diff.entryCb (added removed key addedValue removedValue) -> (keepGoing err)
-//@ pure
+//@ modifies G.cbFailed G.cbStopped
+//@ ensures failed (= (G.cbFailed H) (or (G.cbFailed H0) (isErr err)))
+//@ ensures stopped (= (G.cbStopped H) (or (G.cbStopped H0) (not keepGoing)))
 //@ abstract param:(*Mast).diff.linkCb (removed link) -> (keepGoing err)
-//@ pure
+//@ modifies G.cbFailed G.cbStopped
+//@ ensures failed (= (G.cbFailed H) (or (G.cbFailed H0) (isErr err)))
+//@ ensures stopped (= (G.cbStopped H) (or (G.cbStopped H0) (not keepGoing)))
 
 // GlobalsOK2: the diff sentinel error is a distinct, comparable, non-nil error
 //@ smt (define-fun DiffGlobalsOK ((h Heap)) Bool (and (isErr (G.ErrNoMoreDiffs h)) (comparable (a.tid (G.ErrNoMoreDiffs h)))))
 
 //@ func (*Mast).diff
 //@ tags C06 C07 C12 C15
-//@ modifies W G.loads Map.Int.Any Map.Int.Any.has iterItemStack.* Arr.S_iterItem diffState.* iterItem.*@fresh entry.*@fresh Arr.Any@fresh Node.*@fresh mastNode.*@fresh Box.Bytes@fresh
+//@ modifies W G.loads G.cbFailed G.cbStopped Map.Int.Any Map.Int.Any.has iterItemStack.* Arr.S_iterItem diffState.* iterItem.*@fresh entry.*@fresh Arr.Any@fresh Node.*@fresh mastNode.*@fresh Box.Bytes@fresh
 //@ requires cfg (and (> m 0) (not (= (Mast.keyOrder H m) 0)) (not (= (Mast.keyLayer H m) 0)) (>= oldMast 0) (=> (> oldMast 0) (not (= (Mast.keyLayer H oldMast) 0))) (DiffGlobalsOK H))
 //@ requires closure [T3] (AllOK H)
 //@ ensures readonly [C06 C07 C12] (NodesSame H0 H W0)
+// the iteration fails exactly when a callback says so, and does not go on after a callback asked to stop
+//@ requires fresh [C06 C07] (and (not (G.cbFailed H)) (not (G.cbStopped H)))
+//@ ensures cbfail [C06 C07] (=> (G.cbFailed H) (isErr err))
+//@ loop 1 invariant cb [C06 C07] (and (not (G.cbFailed H)) (not (G.cbStopped H)))
 //@ ensures sameversion [C15] (=> (and (> oldMast 0) (not (isNil (Mast.root H0 m))) (= (Mast.root H0 m) (Mast.root H0 oldMast))) (and (= err anil) (= (G.loads H) (G.loads H0))))
 //@ loop 1 invariant sameversion [C15] (=> (and (> oldMast 0) (not (isNil (Mast.root H0 m))) (= (Mast.root H0 m) (Mast.root H0 oldMast))) (and (= (G.loads H) (G.loads H0)) (or (and (= (stackLen H (oStack dc)) 0) (= (stackLen H (nStack dc)) 0)) (and (= (stackLen H (oStack dc)) 1) (= (stackLen H (nStack dc)) 1) (not (isYield (topOf H (oStack dc)))) (= (S_iterItem.considerLink (topOf H (oStack dc))) (S_iterItem.considerLink (topOf H (nStack dc))))))))
 //@ loop 1 invariant cfg (and (> dc W0) (DiffCfg H m dc) (DiffGlobalsOK H) (NodesSame H0 H W0) (= (diffState.oldMast H dc) oldMast))
